@@ -6,6 +6,7 @@ import re
 from ..model import AnalysisError, norm, short, call_name, const_val, is_name, names_in
 from ..report import rule
 from ..finite import Undecided
+from ..consteval import get_folder
 from .P import _parents
 
 
@@ -230,7 +231,25 @@ def _tok_eval(e, env):
         if isinstance(v, tuple) and v[0] == 'int':
             return ('param', v[1])
         raise _TokError()
+    # TABLE.get(<token>) / TABLE[<token>] on a module-level table keyed by the canonical decimal spelling of the codes: only a token that is
+    # exactly such a spelling is found -- blanks around it (and a leading zero) make the look-up miss where int() would succeed
+    tbl = None
+    key = None
+    if isinstance(e, ast.Call) and isinstance(e.func, ast.Attribute) and e.func.attr == 'get' and isinstance(e.func.value, ast.Name) and 1 <= len(e.args) <= 2 and \
+            (len(e.args) == 1 or const_val(e.args[1], 0) is None):
+        tbl, key = e.func.value.id, e.args[0]
+    if tbl is not None and _TOK_FOLDER is not None:
+        d = _TOK_FOLDER.env.get(tbl)
+        if isinstance(d, dict) and d and all(isinstance(k, str) and k.isdigit() and str(int(k)) == k for k in d):
+            v = _tok_eval(key, env)
+            if v == 'digits':
+                return ('param', 'digits')
+            if v in ('padded digits', 'other text', 'empty'):
+                return 'none'
     raise Undecided('expression %s' % short(e))
+
+
+_TOK_FOLDER = None
 
 
 class _TokError(Exception):
@@ -363,6 +382,8 @@ def P30(m, R):
         R.undecided(tl, tl.node, 'token conversion of to_list not interpreted: %s' % e, construct='first code: to_list')
         return
     R.ok(tl, lp, 'to_list reads a piece as an integer for the classes %s' % sorted(k for k, v in conv.items() if isinstance(v, tuple)), construct='first code: to_list')
+    global _TOK_FOLDER
+    _TOK_FOLDER = get_folder(m)
     for cls in _TOK:
         cons = 'first code: %s' % cls
         try:
